@@ -438,14 +438,19 @@ def filter_scenario(ex, E):
     o = M()
     events = []
     handler = lambda e: events.append(e.name)
-    o.observe(handler, match(flt))
+    # one graph (the filter alone) or two (a named trait first, then the filter: a failure in the second graph must put the
+    # first one back)
+    from traits.observation.api import trait as trait_
+    two = ex.flag("expression_with_two_graphs")
+    mk_expr = (lambda: trait_("w") | match(flt)) if two else (lambda: match(flt))
+    o.observe(handler, mk_expr())
     pre_added = ex.flag("a_matching_trait_was_added_before")
     if pre_added:
         o.add_trait("v5", Int())
     arm["n"] = k
     failed = None
     try:
-        o.observe(handler, match(flt), remove=True)
+        o.observe(handler, mk_expr(), remove=True)
     except Exception as e:
         failed = type(e)
     arm["n"] = None
@@ -460,17 +465,18 @@ def filter_scenario(ex, E):
         o.v9 = 3
         o.add_trait("x9", Int())
         o.x9 = 4
-        ex.check(events == ["v1", "v2"] + (["v5"] if pre_added else []) + ["v9"],
+        ex.check(events == ["v1"] + (["w"] if two else []) + ["v2"] + (["v5"] if pre_added else []) + ["v9"],
                  "after a failed removal the observer is registered as before, also for matching traits added later")
         del events[:]
         ok = True
         try:
-            o.observe(handler, match(flt), remove=True)
+            o.observe(handler, mk_expr(), remove=True)
         except Exception:
             ok = False
         ex.check(ok, "... and can then be removed")
     o.v1 += 1
     o.v2 += 1
+    o.w += 1
     o.add_trait("v10", Int())
     o.v10 = 1
     ex.check(events == [], "a completed removal is complete: no call for observed traits nor for traits added later")
@@ -580,6 +586,31 @@ def default_handler_scenario(ex):
             escaped = type(e).__name__
         ex.check(escaped is None and o.l == [1] and calls["good"] == [3, "items"],
                  "a failing items handler neither undoes the mutation nor starves the other handlers nor raises to the caller")
+        # the same with observe handlers and observe's own default exception handler (nothing pushed there), the event carrying
+        # an object whose repr() fails
+
+        class Unprintable(HasTraits):
+            w = Int(0)
+
+            def __repr__(self):
+                raise exc_obj
+
+        u = Unprintable()
+        seen = []
+
+        def bad_obs(event):
+            raise exc_obj
+
+        u.observe(bad_obs, "w")
+        u.observe(lambda e: seen.append(e.new), "w")
+        escaped = None
+        try:
+            u.w = 4
+        except BaseException as e:
+            escaped = type(e).__name__
+        ex.check(escaped is None and u.w == 4 and seen == [4],
+                 "a failing observe handler is reported by the default handler whatever the event's objects look like: the assignment "
+                 "stands, the other handlers run, nothing reaches the caller")
         return {"scenario": 9}
     finally:
         logger.removeHandler(null)
